@@ -37,7 +37,8 @@ def canon(t):
 class Grammar(object):
     """The edit grammar of DESIGN.md section 4 / C06 over a fixed data set."""
 
-    def __init__(self, data, subtree_variants=("same", "flat", "single", "chain"), serial=("dict", "pickle")):
+    def __init__(self, data, subtree_variants=("same", "flat", "single", "chain"), serial=("dict", "pickle"), moves_on_full_only=False):
+        self.moves_on_full_only = moves_on_full_only
         self.data = data
         self.dmap = {d.idx: d for d in data}
         self.subtree_variants = subtree_variants
@@ -68,6 +69,11 @@ class Grammar(object):
         labels = t.labels
         out_name = t.outlier_node_name
         nodes = list(t.nodes)
+        if self.moves_on_full_only and len(present) < len(self.data):
+            # the Gibbs moves and the subtree cycle act on complete trees only; partial trees are SMC particles
+            evs.append(("copy",))
+            evs.append(("dict",))
+            return evs
         for i, node in labels.items():
             if t.get_data_len(node) > 1 or node == out_name:
                 for nn in nodes:
